@@ -21,7 +21,9 @@ RULE = (
     "Every case: a random type system and well-formed CAS of the shared generators (scen.gen_tspec / gen_cspec: 1-3 "
     "views with text sofas incl. astral text, every primitive / array / list kind, inline and shared collections, null "
     "elements, cycles, referenced-only structures, reserved feature names, special floats; extended DocumentAnnotation in "
-    "half of the cases), written once by the implementation and then sent through both chains XMI -> CAS -> JSON -> CAS "
+    "half of the cases; in about a third of the cases a view without annotations holds its data in a byte array, which is "
+    "then -- in combinations -- shared by a second sofa, indexed in a view, referenced by a TOP- / ByteArray-ranged feature "
+    "or an FSArray element), written once by the implementation and then sent through both chains XMI -> CAS -> JSON -> CAS "
     "and JSON -> CAS -> XMI -> CAS; a third chain XMI -> CAS -> JSON -> CAS starts from an XMI document that does not mention "
     "_InitialView (the same content with the former initial view as a named view; the Sofa and View elements of the unused "
     "initial view dropped, as UIMA writes it). The JSON type system mode (FULL / MINIMAL / NONE) and the type system source (the "
@@ -42,7 +44,8 @@ TRUSTED = [
     "harness/scen.py builders and identity-based canonical observation in both views",
 ]
 ASSUMPTIONS = [
-    "text sofas only (C16's quantifier); XML-legal strings",
+    "text sofas (C16's quantifier) and, beyond it, sofas whose data is a uima.cas.ByteArray -- private, shared by two sofas, "
+    "indexed, referenced; XML-legal strings",
     "compared in the XMI view: a collection held by a feature without multipleReferencesAllowed has no id in XMI, and an "
     "empty string inside a StringArray / StringList is null in XMI (both views are compared after this normalisation)",
     "the premises of C02 (ASSUMPTIONS there) and of C01 for the two legs",
@@ -82,8 +85,33 @@ def make_scenario(sub, k, big=False):
                                         "end": {"i": len(cspec["views"][vi]["text"])}, "language": {"s": "en"},
                                         "docId": {"s": "d-1"}}})
         cspec["members"].append([vi, lab])
+    knobs = sofa_arrays(random.Random(sub ^ 0xA77A), cassis, tspec, da_feats, cspec)
     return {"tspec": tspec, "da_feats": da_feats, "cspec": cspec,
-            "cfg": {"mode": mode, "src": src, "pretty": bool(k % 2), "load": ["orig", True], "ascii": False, "sink": "str"}}
+            "cfg": {"mode": mode, "src": src, "pretty": bool(k % 2), "load": ["orig", True], "ascii": False, "sink": "str",
+                    "array_knobs": knobs}}
+
+
+def sofa_arrays(r, cassis, tspec, da_feats, cspec):
+    """Beyond the text sofas of the property's quantifier (after /repo d1bc860, d94ad6a): in about a third of the cases a view
+    that carries no annotation holds its data in a byte array (id-less or with an id), and C02.share_sofa_arrays then lets the
+    array be shared by a second sofa, indexed in a view, referenced by a feature / an FSArray element, in combinations.  A
+    random stream of its own: the rest of the scenario is what it was."""
+    if r.random() >= 0.35:
+        return []
+    objs, views = cspec["objs"], cspec["views"]
+    ann_views = {o["slots"]["sofa"]["sofa"] for o in objs if o["slots"].get("sofa")}
+    free = [v for v in views if v["name"] not in ann_views]
+    if not free:
+        return []
+    used = {o["id"] for o in objs if o["id"] is not None} | set(range(1, len(views) + 1))
+    v = r.choice(free)
+    lab = max(o["o"] for o in objs) + 1
+    aid = r.choice([None, max(used) + r.randint(1, 3)])
+    objs.append({"o": lab, "type": "uima.cas.ByteArray", "id": aid,
+                 "slots": {"elements": {"list": [{"i": r.choice([0, 255, 65, r.randint(0, 255)])} for _ in range(r.choice([0, 1, 2, 5]))]}}})
+    v["array"] = lab
+    v["text"] = None
+    return ["array"] + c02.share_sofa_arrays(r, cassis, tspec, da_feats, cspec)   # (ends with c02.keep_ids_apart)
 
 
 # ------------------------------------------------------------------------------------------------ implementation driver
@@ -148,6 +176,11 @@ def drop_initial(xmi_text):
     return ET.tostring(root, encoding="unicode")
 
 
+def _twice(cas):
+    """ids under which the CAS holds more than one Python object (identity; C02.objects_per_id)"""
+    return sorted(i for i, n in c02.objects_per_id(cas).items() if n > 1 and i is not None)
+
+
 def run_impl(cassis, sc):
     cfg = sc["cfg"]
     mode = _mode(cassis, cfg["mode"])
@@ -164,6 +197,7 @@ def run_impl(cassis, sc):
     obs["a1_json"] = scen.canon(a1, "json")
     obs["a1_xmi"] = scen.canon(a1, "xmi")
     a2 = cassis.load_cas_from_json(j, typesystem=None if cfg["src"] == "embedded" else orig())
+    obs["twice"] = {"a2": _twice(a2)}
     obs["a2_xmi"] = scen.canon(a2, "xmi")
     obs["a2_json"] = scen.canon(a2, "json")
     # chain B: JSON -> CAS -> XMI -> CAS
@@ -171,6 +205,7 @@ def run_impl(cassis, sc):
     j0 = cas0b.to_json(pretty_print=cfg["pretty"], type_system_mode=mode)
     obs["b_doc"] = J.parse(j0)
     b1 = cassis.load_cas_from_json(j0, typesystem=None if cfg["src"] == "embedded" else orig())
+    obs["twice"]["b1"] = _twice(b1)
     obs["b1_json"] = scen.canon(b1, "json")
     obs["b1_xmi_before"] = scen.canon(b1, "xmi")
     x = b1.to_xmi(pretty_print=cfg["pretty"])
@@ -193,6 +228,7 @@ def run_impl(cassis, sc):
         obs["n1_json"] = scen.canon(n1, "json")
         obs["n1_xmi"] = scen.canon(n1, "xmi")
         n2 = cassis.load_cas_from_json(jn, typesystem=None if cfg["src"] == "embedded" else orig())
+        obs["twice"]["n2"] = _twice(n2)
         obs["n2_xmi"] = scen.canon(n2, "xmi")
         obs["n2_json"] = scen.canon(n2, "json")
     return obs
@@ -203,6 +239,10 @@ def oracle(cassis, sc, obs):
     if m:
         return "harness premise: " + m
     tag = f"mode={sc['cfg']['mode']} type system={sc['cfg']['src']}"
+    for which, ids in (obs.get("twice") or {}).items():
+        if ids:
+            return (f"sharing lost: the CAS loaded from JSON ({which}) holds several objects under one id {ids} -- reference "
+                    f"structure not preserved ({tag})")
     d = c02._diff(obs["a1_xmi_before"], obs["a1_xmi"])
     if d:
         return f"to_json changed the CAS loaded from XMI ({tag}): {d}"
@@ -288,6 +328,9 @@ def distribution(scenarios, observations):
             "multi_view": sum(1 for s in scenarios if len(s["cspec"]["views"]) > 1),
             "astral_text": sum(1 for s in scenarios if any(any(c > 0xFFFF for c in (v.get("text") or [])) for v in s["cspec"]["views"])),
             "docann_extended": sum(1 for s in scenarios if s["da_feats"]),
+            "sofa_byte_array": sum(1 for s in scenarios if "array" in (s["cfg"].get("array_knobs") or [])),
+            "sofa_byte_array_shared_indexed_referenced": sum(1 for s in scenarios if {"shared", "indexed", "referenced", "element"}
+                                                             & set(s["cfg"].get("array_knobs") or [])),
             "objects_max": max([len(s["cspec"]["objs"]) for s in scenarios] or [0])}
 
 
